@@ -41,7 +41,7 @@ NOT_APPLICABLE = {
 
 PROPS = {
     'C02': dict(
-        rules=[r_linear.rule_L05_from_scratch],
+        rules=[r_linear.rule_L05_from_scratch, r_linear.rule_L05w_compositions],
         feature_sets=_sets(['default'], ['default', 'u16', 'f32']),
         rules_thorough=[on_build(r_linear.rule_L05_from_scratch, 'u16'), on_build(r_linear.rule_L05_from_scratch, 'f32')],
         explanation=('(L05) for the single-window linear methods SMA, WMA, LinReg, Momentum, Derivative, Past and the windowed Integral: the window of the last n inputs is abstracted by its '
@@ -51,8 +51,10 @@ PROPS = {
                      'element (the M0 and M1 coefficient equations hold, and the constructor gives F the value of that combination on a window full of the first value); the returned value, '
                      'rewritten in the moments of the NEW window, is the documented from-scratch formula: M0/n (SMA), (n*M0 - M1)/(n(n+1)/2) (WMA), the least-squares line through the n points '
                      'evaluated at the newest point (LinReg), x - p, (x - p)/n, p, M0 (Momentum, Derivative, Past, Integral). Hence, in exact arithmetic, every output of every stream equals the formula evaluated from scratch on the last n inputs, '
-                     'the construction value standing in before the stream began. The table of formulas is the text of the property / the documentation, not read off the code.'),
-        not_decided=['SWMA, TRIMA, HMA (two or three windows; their weight sums are decided by L01 under C15), Conv (loop), VWMA (product of two streams), StDev / LinearVolatility / CCI / MeanAbsDev / MedianAbsDev (quadratic or selection), RateOfChange (ratio), windowed ADI (candle input): outside the moment domain, not decided',
+                     'the construction value standing in before the stream began. The table of formulas is the text of the property / the documentation, not read off the code. '
+                     '(L05w) TRIMA and HMA are the documented compositions of such components: with inner methods as opaque objects that remember their type, length and seed, TRIMA::new builds SMA(n), SMA(n) and HMA::new builds '
+                     'WMA(n/2), WMA(n), WMA(floor sqrt n), all seeded with the first value; next() steps every component exactly once on every path, feeds them input / input and out0 resp. input / input / 2*out0 - out1 and returns the last output.'),
+        not_decided=['SWMA (two windows updated by one function; its weight sum is decided by L01 under C15), Conv (loop), VWMA (product of two streams), StDev / LinearVolatility / CCI / MeanAbsDev / MedianAbsDev (quadratic or selection), RateOfChange (ratio), windowed ADI (candle input): outside the moment domain, not decided',
                      'the floating-point rounding allowance: the argument is over the reals; that the incremental sums do not drift is C07\'s subject'],
         assumptions=TRUST,
         technique='static analysis: abstract interpretation of MIR with explicit symbolic coefficients; inductive moment invariants of the window compared with the documented formula',
